@@ -66,6 +66,10 @@ CLAIMED = {
          "(complete over their abstract domains), value-flow proof that namespaces_to_ignore reaches the feature pass only, twins of the cap "
          "variants. Equality of complete outputs with the restricted document is not decided", "4 C16",
          "decision tables by abstract evaluation of the AST, value-flow reachability of an option (who receives it), twin comparison (R-TABLE, R-PLUMB, R-TWIN)"),
+ "C17": ("decision tables of the stem cut-back, of longest_common_prefix and of the fold step (sentinel), example bookkeeping (other end of "
+         "the triple, first-seen guard = store key, fresh per-shape storage, read with the statement's direction), twins, influence policy of "
+         "the two options. Longest-stem maximality over arbitrary instance sets is not separately decided", "4 C17",
+         "decision tables by abstract evaluation (regex constant folded), def-use pairing lint at the example sites, twin comparison, information-flow policy (R-TABLE, R-CONST, R-FLOW, R-PURE, R-TWIN, R-EFFECT)"),
 }
 NA_REASON = {
  "C08": "relates the outputs of different parsers (rdflib readers, two hand-written scanners, TSV splitter, decompressors) on "
